@@ -218,6 +218,9 @@ def to_np(rows):
 # operation trees
 # ----------------------------------------------------------------------------------------------------------------
 NAMES = ['sub1.pgm', 'dir/sub2.pgm', 'wall_01.pgm', 'mzi_0.5.pgm', 'mzi_0.7.pgm', 'a/b/floor.pgm', 'bad.txt', 'noext']
+# other spellings of some of the programs above (same file name, another folder): one program for compiler and controller alike
+RESPELL = {'sub1.pgm': ['lib/sub1.pgm', 'x/y/sub1.pgm'], 'dir/sub2.pgm': ['sub2.pgm', 'other/sub2.pgm'], 'wall_01.pgm': ['sub/wall_01.pgm'],
+           'a/b/floor.pgm': ['floor.pgm', 'b/floor.pgm'], 'mzi_0.5.pgm': ['run/mzi_0.5.pgm']}
 
 
 def gen_ops(rng, exact: bool, depth: int, budget: list[int], declared: list[str], p_raise: float, in_body: bool = False) -> list[dict]:
@@ -225,6 +228,14 @@ def gen_ops(rng, exact: bool, depth: int, budget: list[int], declared: list[str]
     n = rng.randint(0 if in_body else 1, 6)
     # some pauses have more decimals than a coarse output_digits setting prints for coordinates (a pause is printed in full)
     pauses = [0.5, 0.25, 1.0, 0.0, None, -0.125, 2.0, 0.0625, 0.03125] if exact else [0.3, 0.1, 1.7, 0.0, None, -0.45, 0.3333, 0.0004, 0.025]
+    if not in_body and rng.random() < 0.12:
+        # one program under two spellings: loaded and called under one, removed under another, then called again under the first —
+        # the last call is a call of a program that is no longer loaded
+        base = rng.choice(sorted(RESPELL))
+        s1, s2 = rng.sample([base] + RESPELL[base], 2)
+        ops += [{'k': 'load', 'p': s1, 'task': 2}, {'k': rng.choice(['farcall', 'buffered']), 'p': s1, 'task': 2},
+                {'k': 'remove', 'p': s2, 'task': 2},
+                {'k': 'attempt', 'body': [{'k': rng.choice(['farcall', 'buffered']), 'p': s1, 'task': 2}]}]
     for _ in range(n):
         if budget[0] <= 0:
             break
@@ -240,13 +251,24 @@ def gen_ops(rng, exact: bool, depth: int, budget: list[int], declared: list[str]
             if rng.random() < 0.08 and len(rows) > 2:
                 # a feed below the guard somewhere after the start: write() must reject the matrix before emitting anything
                 rows[rng.randrange(1, len(rows))][3] = f32(rng.choice([0.0, -1.0, 1e-9]))
-            ops.append({'k': 'write', 'm': matrix_json(rows)})
+            op = {'k': 'write', 'm': None}
+            if rng.random() < 0.05 and len(rows) > 2:
+                # a feed that is not a number: the implementation gets NaN / inf, the model a feed it rejects alike (0)
+                j = rng.randrange(1, len(rows))
+                rows[j][3] = 0.0
+                op['feed_py'] = [j, rng.choice(['nan', 'inf'])]
+            op['m'] = matrix_json(rows)
+            ops.append(op)
         elif k == 'move':
             p = [rng.choice([None, 0.0, 1.5, -2.0]) for _ in range(3)]
             if rng.random() < 0.9 and all(v is None for v in p):
                 p[rng.randrange(3)] = 1.0
             sp = rng.choice([None, None, 2.5, 10.0, 0.0 if rng.random() < 0.2 else 4.0])
-            ops.append({'k': 'move', 'p': [q(v) for v in p], 'speed': q(sp)})
+            op = {'k': 'move', 'p': [q(v) for v in p], 'speed': q(sp)}
+            if rng.random() < 0.06:
+                op['speed'] = q(0.0)
+                op['speed_py'] = rng.choice(['nan', 'inf'])
+            ops.append(op)
         elif k in ('origin', 'init', 'raise'):
             ops.append({'k': k})
         elif k == 'dwell':
@@ -298,10 +320,13 @@ def run_ops(G, ops) -> None:
     for op in ops:
         k = op['k']
         if k == 'write':
-            G.write(to_np([[float(core.unq(v)) for v in r] for r in op['m']]))
+            rows = [[float(core.unq(v)) for v in r] for r in op['m']]
+            if op.get('feed_py'):
+                rows[op['feed_py'][0]][3] = float(op['feed_py'][1])
+            G.write(to_np(rows))
         elif k == 'move':
             G.move_to([None if v is None else float(core.unq(v)) for v in op['p']],
-                      None if op.get('speed') is None else float(core.unq(op['speed'])))
+                      float(op['speed_py']) if op.get('speed_py') else (None if op.get('speed') is None else float(core.unq(op['speed']))))
         elif k == 'origin':
             G.go_origin()
         elif k == 'init':
